@@ -637,6 +637,19 @@ func mergeValuesEqual(value1, value2 *ast.Value) error {
 	if value1.Raw != value2.Raw {
 		return errors.New("encountered different raw values")
 	}
+	// lists and objects keep their content in their children
+	if len(value1.Children) != len(value2.Children) {
+		return errors.New("encountered a different number of child values")
+	}
+	for i, child1 := range value1.Children {
+		child2 := value2.Children[i]
+		if child1.Name != child2.Name {
+			return errors.New("encountered different child value names")
+		}
+		if err := mergeValuesEqual(child1.Value, child2.Value); err != nil {
+			return err
+		}
+	}
 
 	return nil
 }
